@@ -2,7 +2,7 @@
    (the sanitizer clause is a supporting runtime test, see DESIGN §7: partial) *)
 From Coq Require Import ZArith List Bool Lia.
 Import ListNotations.
-From XO Require Import Slots Strides BufOps BufOpsProofs Types Format CExpr CExprProofs CSpec CSpecProofs.
+From XO Require Import Slots Strides BufOps BufOpsProofs Types Format LayoutProofs CExpr CExprProofs CSpec CSpecProofs Address.
 Open Scope Z_scope.
 
 (* a validated setter stores at exactly the layout's address of the element, for all in-range (and
@@ -13,6 +13,19 @@ Theorem C07_setter_address : forall f, cfun_ok f = None ->
 Proof. exact cfun_ok_sound. Qed.
 (* storing the n bytes of a value at an address changes exactly those n bytes: every other
    element, every header word and every neighbour keeps its bytes; reading back gives the value *)
+(* IN BOUNDS (and at the right element), end to end: an accessor accepted by the validator, run with in-range indices on ANY buffer that holds
+   the documented image of ANY value of its type at ANY offset, computes the address at which the
+   documented image of the addressed element sits, and that lies inside the object.  (nav: the element
+   a path denotes under the index arguments; crun: C semantics of the emitted body and return
+   expression; loads read the buffer relative to the object start.)  With C05's tie (the bytes of
+   every object ARE the documented image) this is "C and Python address the same bytes". *)
+Theorem C07_accessor_addresses_element : forall f v img m o ix lt lv ic',
+  cfun_ok f = None -> (cf_action f = AGetp \/ ((cf_action f = AGet \/ cf_action f = ASet) /\ exists k, lt = TScalar k)) ->
+  nav ix (cf_ty f) v (cf_path f) 0 lt lv ic' ->
+  enc (cf_ty f) v = Some img -> sits img m o -> len img < 2^62 ->
+  let addr := o + crun (ld m o) ix (cf_body f) (cf_final f) in
+  exists e, enc lt lv = Some e /\ sits e m addr /\ o <= addr /\ addr + len e <= o + len img.
+Proof. exact accessor_addresses_element. Qed.
 Theorem C07_store_changes_exactly_the_element : forall m off bs, in_range m off (Z.of_nat (length bs)) ->
   length (wr m off bs) = length m /\
   (forall i, 0 <= i -> (i < off \/ off + Z.of_nat (length bs) <= i) -> byte (wr m off bs) i = byte m i) /\
@@ -29,3 +42,4 @@ Print Assumptions C07_setter_address.
 Print Assumptions C07_store_changes_exactly_the_element.
 Print Assumptions C07_value_read_back.
 Print Assumptions C07_slots_aligned.
+Print Assumptions C07_accessor_addresses_element.
